@@ -85,7 +85,7 @@ func (t *Target) BuildRedirectURL(requestURL *url.URL) {
 		Scheme:   t.URL.Scheme,
 		Host:     t.URL.Host,
 		Path:     t.URL.Path,
-		RawPath:  t.URL.Path,
+		RawPath:  t.URL.EscapedPath(), // the encoded form of Path
 		RawQuery: t.URL.RawQuery,
 	}
 	// treat case of $path not separated with a / from host
@@ -102,21 +102,17 @@ func (t *Target) BuildRedirectURL(requestURL *url.URL) {
 	// remove strip path, insert passed request path, set query
 	if strings.Contains(t.RedirectURL.Path, "$path") {
 		// set replacement paths
+		// the path and the path as the client encoded it (e.g. %2F) are
+		// rewritten together: url.URL ignores an encoded path which is not
+		// an encoding of the path
 		replacePath := requestURL.Path
-		var replaceRawPath string
-		if requestURL.RawPath == "" {
-			replaceRawPath = requestURL.Path
-		} else {
-			replaceRawPath = requestURL.RawPath
-		}
+		replaceRawPath := requestURL.EscapedPath()
 		// strip path before replacement
-		if t.StripPath != "" {
-			if strings.HasPrefix(replacePath, t.StripPath) {
-				replacePath = replacePath[len(t.StripPath):]
-			}
-			if strings.HasPrefix(replaceRawPath, t.StripPath) {
-				replaceRawPath = replaceRawPath[len(t.StripPath):]
-			}
+		if t.StripPath != "" && strings.HasPrefix(replacePath, t.StripPath) {
+			replacePath = replacePath[len(t.StripPath):]
+			// the client may have escaped characters of the prefix, e.g.
+			// '~' as %7E: cut off as much as decodes to the prefix
+			replaceRawPath = replaceRawPath[encodedLen(replaceRawPath, len(t.StripPath)):]
 		}
 		// like the path the proxy sends upstream, what is left of the path
 		// is absolute: strip=/app/ leaves /users of /app/users and strip=/foo
@@ -125,7 +121,8 @@ func (t *Target) BuildRedirectURL(requestURL *url.URL) {
 		// add prepend path
 		if t.PrependPath != "" {
 			replacePath = t.PrependPath + replacePath
-			replaceRawPath = t.PrependPath + replaceRawPath
+			// the option is plain text like the path
+			replaceRawPath = (&url.URL{Path: t.PrependPath}).EscapedPath() + replaceRawPath
 			replacePath, replaceRawPath = absRedirectPath(replacePath, replaceRawPath)
 		}
 		// do path replacement
@@ -142,6 +139,23 @@ func (t *Target) BuildRedirectURL(requestURL *url.URL) {
 	if strings.Contains(t.RedirectURL.Host, "$host") {
 		t.RedirectURL.Host = strings.Replace(t.RedirectURL.Host, "$host", requestURL.Host, 1)
 	}
+}
+
+// encodedLen returns the length of the prefix of the percent-encoded
+// string raw which decodes to n bytes.
+func encodedLen(raw string, n int) int {
+	i := 0
+	for ; n > 0 && i < len(raw); n-- {
+		if raw[i] == '%' {
+			i += 3
+		} else {
+			i++
+		}
+	}
+	if i > len(raw) {
+		i = len(raw)
+	}
+	return i
 }
 
 // absRedirectPath puts a slash in front of a non-empty path which does not
